@@ -157,11 +157,12 @@ theorem count_nonneg (T : Truth) (h : List Op) (r t : Nat) :
 /-! ## A layer with outstanding uses is never released -/
 
 /-- One step: whatever operation comes next (on this or any other layer or image), a cached
-layer whose use count is still positive afterwards is still cached afterwards — the same
-instance — and `Done()` has not been called on it. -/
+layer that still has a use count afterwards (by `count_nonneg` a stored count is ≥ 1, i.e. there
+are outstanding uses) is still cached afterwards — the same instance — and `Done()` has not been
+called on it. -/
 theorem in_use_never_released (T : Truth) (s : St) (hI : Inv T s) (op : Op) (r t : Nat)
-    (l : Layer) (c : Int) (hl : lay s r t = some l) (hc : cnt (step T s op).1 r t = some c)
-    (hpos : 0 < c) : lay (step T s op).1 r t = some l ∧ l.id ∉ (step T s op).1.done := by
+    (l : Layer) (c : Int) (hl : lay s r t = some l) (hc : cnt (step T s op).1 r t = some c) :
+    lay (step T s op).1 r t = some l ∧ l.id ∉ (step T s op).1.done := by
   cases op with
   | lookup o r0 t0 =>
     have hE := (lookup_inv_ext T o s r0 t0 hI).2
@@ -201,9 +202,9 @@ theorem in_use_never_released (T : Truth) (s : St) (hI : Inv T s) (op : Op) (r t
           · exact hne (hI.uniq _ _ _ _ _ _ hl hl0 e)
           · exact hI.live _ _ _ hl e
 
-/-- Along a whole history: once a layer is cached, as long as its use count stays positive after
-every further operation, it stays cached (the same instance) and is never `Done()` — whatever
-else happens to other layers and images, including their release to zero. -/
+/-- Along a whole history: once a layer is cached, as long as it has outstanding uses after every
+further operation, it stays cached (the same instance) and is never `Done()` — whatever else
+happens to other layers and images, including their release to zero. -/
 theorem in_use_layer_kept_along_history (T : Truth) (h : List Op) (r t : Nat) (l : Layer)
     (hl : lay (run T init h) r t = some l) (h' : List Op)
     (hpos : ∀ p, p <+: h' → p ≠ [] → ∃ c, cnt (run T (run T init h) p) r t = some c ∧ 0 < c) :
@@ -215,9 +216,9 @@ theorem in_use_layer_kept_along_history (T : Truth) (h : List Op) (r t : Nat) (l
   | cons op ops ih =>
     have h1 : run T s (op :: ops) = run T (step T s op).1 ops := rfl
     rw [h1]
-    obtain ⟨c, hc, hc0⟩ := hpos [op] (by simp) (by simp)
+    obtain ⟨c, hc, _⟩ := hpos [op] (by simp) (by simp)
     have hc' : cnt (step T s op).1 r t = some c := hc
-    obtain ⟨hl1, _⟩ := in_use_never_released T s hI op r t l c hl hc' hc0
+    obtain ⟨hl1, _⟩ := in_use_never_released T s hI op r t l c hl hc'
     apply ih _ (step_inv T s op hI) hl1
     intro p hp hne
     have : (op :: p) <+: (op :: ops) := by
